@@ -286,17 +286,17 @@ func cmdCheck(args []string) int {
 		"seed":        seed,
 		"level":       "proof",
 		"coverage": map[string]any{
-			"obligations":              total,
-			"discharged":               discharged + len(knownHits),
-			"discharged_by_solver":     discharged,
-			"known_findings":           knownHits,
+			"obligations":              total - len(knownHits),
+			"discharged":               discharged,
+			"obligations_incl_known_findings": total,
+			"known_findings":           orEmpty(knownHits),
 			"checker_cmd":              fmt.Sprintf("bin/govc check %s --tier %s", prop, *tier),
 			"trusted_base":             trustedBase,
 			"samples":                  samples,
 			"by_backend":               byBackend,
 			"solver_time_s":            round3(solverTime),
-			"functions_under_contract": fns,
-			"functions_outside_subset": outs,
+			"functions_under_contract": orEmpty(fns),
+			"functions_outside_subset": orEmpty(outs),
 			"integers":                 "mathematical Int with explicit no-overflow obligations at arithmetic sites (A1)",
 			"explanation":              "VCs generated from go/ssa of /repo's working tree (tags: verif); each obligation is facts ⊢ cond ⇒ goal, discharged iff some solver answers unsat and none answers sat",
 		},
@@ -636,4 +636,11 @@ func cmdSeeded(args []string) int {
 	data, _ := json.MarshalIndent(rows, "", " ")
 	_ = os.WriteFile(filepath.Join(verifDir(), "seeded", "RESULTS.json"), data, 0644)
 	return 0
+}
+
+func orEmpty(xs []string) []string {
+	if xs == nil {
+		return []string{}
+	}
+	return xs
 }
